@@ -97,6 +97,14 @@ pub fn dispatch(ctx: &Ctx, rep: &mut Report) {
             }
         },
         "C11" => c11::run(ctx, rep),
+        "C12" => {
+            if fm {
+                crate::onfm::c12::run(ctx, rep);
+            }
+            if ris {
+                crate::onris::c12::run(ctx, rep);
+            }
+        },
         other => {
             eprintln!("unknown check {other}");
             std::process::exit(3);
